@@ -195,7 +195,7 @@ impl Partition {
         offset: u64,
         count: u32,
     ) -> Result<Vec<Arc<RetainedMessage>>, IggyError> {
-        let mut messages = Vec::with_capacity(count as usize);
+        let mut messages = Vec::new();
         let mut remaining_count = count;
 
         for segment in segments {
